@@ -932,6 +932,9 @@ func (rw *rewriter) expr(e ast.Expr) ast.Expr {
 						n = rw.expr(v.Args[1])
 						if lit, ok := v.Args[1].(*ast.BasicLit); ok && rw.opt.ScaleCaps && lit.Kind == token.INT {
 							n = rw.call("ScaleCap", lit)
+						} else if tv, ok := rw.info.Types[v.Args[1]]; ok && rw.opt.ScaleCaps && tv.Value != nil {
+							// a named constant (or constant expression) is a fixed capacity as well
+							n = rw.call("ScaleCap", &ast.CallExpr{Fun: ast.NewIdent("int"), Args: []ast.Expr{n}})
 						}
 					}
 					rw.used = true
